@@ -138,6 +138,37 @@ theorem never_stuck (ops : FileOps) (kind : EmitterKind) (cfg : Cfg) (root : Tre
   simp only [phasesSafe, Bool.and_eq_true] at hs
   exact exec_not_stuck ⟨formatFile, ops, kind, cfg, root⟩ formatProject {} false false false false hs.1 (by simp) (by simp)
 
+/-- **Only the format loop touches the file system**: every other phase of `format_project` leaves the effect
+log exactly as it found it, whether it goes on or leaves the function. -/
+theorem only_the_loop_writes (e : Env) (p : Phase) (s : St) (hp : p ≠ .formatLoop) :
+    match step e p s with
+    | .next s' => s'.log = s.log
+    | .done r => r.log = s.log := by
+  cases p with
+  | formatLoop => exact absurd rfl hp
+  | newParseSess => by_cases h : e.cfg.ignoreGlobOk = true <;> simp [step, h]
+  | ignoreRootCheck =>
+    cases h1 : s.psess <;> cases h2 : (e.cfg.skipChildren && e.root.file.ignored) <;> simp [step, h1, h2]
+  | parseCrate =>
+    cases h1 : s.psess
+    · simp [step, h1]
+    · by_cases h2 : e.root.file.parse = .ok <;> simp [step, h1, h2]
+  | resolveModules =>
+    cases h1 : s.krate with
+    | none => simp [step, h1]
+    | some k => cases h2 : visitCrate (!e.cfg.skipChildren) k <;> simp [step, h1, h2]
+  | filterFiles => simp [step]
+
+/-- **No write precedes the last parse** (the generated order): the two phases that parse source files —
+`parse_crate` (the root) and `visit_crate` (every out-of-line module) — both come before the one format loop, and
+nothing that parses comes after it.  With `only_the_loop_writes`: when the first file is written, every file of
+the crate has been parsed and module resolution has succeeded. -/
+theorem all_parsing_precedes_the_loop :
+    (formatProject.takeWhile (· ≠ .formatLoop)).count .parseCrate = 1 ∧
+    (formatProject.takeWhile (· ≠ .formatLoop)).count .resolveModules = 1 ∧
+    ((formatProject.dropWhile (· ≠ .formatLoop)).all fun p => p != .parseCrate && p != .resolveModules) = true := by
+  decide
+
 /-! ## Configuration faults -/
 
 /-- The generated order of `format_input_inner` is the one `RF.Session.formatInput` hard-wires: running the
